@@ -172,29 +172,53 @@ def emit_check(B, rep, samples):
             rep.violation("emit:" + kind, "compile_perm_check forks or panics for " + kind, dict(kind=kind))
             continue
         text = outs[0][0].store[cell]
-        pieces = []
-        for it in text.items:
-            if isinstance(it, Seg):
-                pieces.append(it)
-            elif pieces and isinstance(pieces[-1], str):
-                pieces[-1] += chr(it)
+        # semantic: the emitted expression, evaluated by Engine S on a symbolic file mode, has the documented truth value for every
+        # value of the permission bits (the text may depend on the bits: every alternative is examined)
+        from scheme.reader import read_all, ReadError
+        from scheme.eval import FileRec, Machine, truth, RuntimeErr
+        frec = FileRec("c08" + kind)
+        mode = frec.mode
+        spec = {"Equal": (mode & 0o7777) == bits, "AtLeast": (mode & bits) == bits, "Any": (mode & bits) != 0}[kind]
+        bad = False
+        shown = None
+        for g, x in alts_of(text):
+            try:
+                data = read_all(list(x.items))
+                if len(data) != 1:
+                    raise ReadError("%d forms" % len(data))
+                M = Machine(frec)
+                tv = truth(M.eval(data[0], {}, True))
+                wrong = b_or(M.err, z3.Xor(tv if is_sym(tv) else z3.BoolVal(bool(tv)), spec))
+            except (ReadError, RuntimeErr) as e:
+                wrong = True
+            bad = b_or(bad, b_and(g, wrong))
+        res, m = B.solve("emit:" + kind, list(frec.constraints()) + [z3.ULE(bits, 0o7777)], bad)
+        if res == z3.sat:
+            bv = m.eval(bits, model_completion=True).as_long()
+            mv = m.eval(mode, model_completion=True).as_long()
+            pre = {"Equal": "", "AtLeast": "-", "Any": "/"}[kind]
+            textin = "-perm %s%04o" % (pre, bv)
+            d = B.ctx.run_native([textin], "debug")[0]
+            sch = d.get("scheme", "")
+            want = {"Equal": (mv & 0o7777) == bv, "AtLeast": (mv & bv) == bv, "Any": (mv & bv) != 0}[kind]
+            got = eval_native_perm(sch, mv)
+            if got is None or got == want:
+                rep.inconclusive.append("emitted-comparison witness %r (mode %o) does not reproduce natively" % (textin, mv))
             else:
-                pieces.append(chr(it))
-        # expected shapes (12 permission bits = 4095)
-        want = {"Equal": ["(= (logand (mode) 4095) ", "B", ")"], "AtLeast": ["(= (logand (mode) ", "B", ") ", "B", ")"],
-                "Any": ["(not (= (logand (mode) ", "B", ") 0))"]}[kind]
-        ok = len(pieces) == len(want)
-        if ok:
-            for p, w in zip(pieces, want):
-                if w == "B":
-                    ok = ok and isinstance(p, Seg) and p.kind == "dec" and p.term.eq(bits)
-                else:
-                    ok = ok and p == w
-        rep.query("emit:" + kind, "unsat" if ok else "sat", 0.0)
-        if not ok:
-            shown = "".join(p if isinstance(p, str) else "<bits>" for p in pieces)
-            rep.violation("emit:" + kind, "emitted comparison for PermCheck::%s is %r" % (kind, shown), dict(kind=kind, emitted=shown))
+                rep.violation("emit:" + kind, "%r on a file of mode %04o: the emitted test is %s, the prefix rule says %s" % (textin, mv & 0o7777, got, want),
+                              dict(input=textin, mode=mv, expected=want))
     samples.append(dict(kind="emitted comparison", check_kinds=list(PREFIX.values()), bits="symbolic u32"))
+
+
+def eval_native_perm(scheme_text, mode):
+    """evaluate the permission comparison of a natively emitted program on a concrete mode (three documented shapes)"""
+    m1 = re.search(r"\(= \(logand \(mode\) (\d+)\) (\d+)\)", scheme_text)
+    m3 = re.search(r"\(not \(= \(logand \(mode\) (\d+)\) 0\)\)", scheme_text)
+    if m3:
+        return (mode & int(m3.group(1))) != 0
+    if m1:
+        return (mode & int(m1.group(1))) == int(m1.group(2))
+    return None
 
 
 def native_bits(d):
